@@ -451,7 +451,10 @@ def arr_method(R, E, arr, name, args, kwargs, node):
     if name == "fill":
         E.note_write(arr, node)
         v = args[0]
-        arr.assign_fn(lambda *i: cast(v, arr.kind))
+        if v is NaN:
+            arr.assign_fn(lambda *i: z3.RealVal(0), lambda *i: z3.BoolVal(True))
+        else:
+            arr.assign_fn(lambda *i: cast(v, arr.kind))
         return None
     if name == "any":
         return R.np_any(E, arr)
